@@ -66,6 +66,10 @@ CLAIMS = {
          "Theorems C14_*: for every parameter list and arbitrary memory the element-level < is irreflexive, asymmetric and transitive; vector < is irreflexive; > <= >= are derived as stated; field order is a strict weak order. C14_vector_less_transitive_refuted: vm_compute witness that vector < is not transitive (element < is a product order over the compared runs) = known finding less-product-order. "
          "Tie: all six operators on pairs of vectors/elements over a 2-3 value domain; oracle checks the laws on the implementation's own results (irreflexive, asymmetric, transitive, consistent with ==, content-only, vector < = lexicographical_compare under the observed element <).",
          "5 C14"),
+ "C11": ("proof (structure of the assign/swap run tables for every list; iterators = index arithmetic) + correspondence on reference/iterator/algorithm histories with a content oracle",
+         "Theorems C11_*: for every parameter list the tables driving reference assignment and swap cover every field, MANUAL exactly where the value type is not trivially assignable/swappable and otherwise inside a run of consecutive trivial fields (RunsThm.runs_structure, induction over the list with an array invariant) - so no field is skipped and no non-trivial object is moved byte-wise; iterator expressions equal index arithmetic. "
+         "PARTIAL: that assign/swap/rotate/reverse/swap_ranges reproduce exactly the source values is decided by the tie: model of assign_one/swap_one as written (memmove of [begin K, end INDEX), object-wise MANUAL fields with events) vs the real library on histories of reference assignment in four forms (const, lvalue, rvalue=move, through iterators), swap/iter_swap, writes through six access paths incl. structured bindings, iterator batteries on const and mutable iterators, std::rotate/reverse/swap_ranges, on lists covering every run-table shape up to four fields; content oracle = a Python list of tuples; access paths cross-checked in every observation.",
+         "5 C11"),
 }
 
 checks = []
